@@ -117,6 +117,12 @@ impl<R> Decoder<R> {
         &self.read_buf
     }
 
+    /// Verification hook: pretend `bytes` is the line that was just read.
+    pub fn verif_set_read_buf(&mut self, bytes: &[u8]) {
+        self.read_buf.clear();
+        self.read_buf.extend_from_slice(bytes);
+    }
+
     /// Verification hook: access to the wrapped reader.
     pub fn verif_inner(&mut self) -> &mut R {
         self.inner.get_mut().1
